@@ -16,7 +16,7 @@ META = {
 def cases_for(run):
     rng = run.rng
     cases = A.fixed_cases()
-    n = 260 if run.tier == "quick" else 6000
+    n = 200 if run.tier == "quick" else 6000
     for i in range(n):
         cases.append(A.gen_case(rng))
     # every length 0..64 once with a plain float column (lane split at every remainder)
